@@ -23,7 +23,8 @@ pub struct ClientScript {
     /// acknowledged SET round trips before the shutdown window
     pub pre_sets: u8,
     /// 0 idle, 1 part of a frame sent, 2 one complete (large) SET sent and reply not read yet,
-    /// 3 several pipelined SETs, 4 pipelined GETs of a large value read slowly
+    /// 3 several pipelined SETs, 4 pipelined GETs of a large value read slowly, 5 a client that
+    /// finished (round trips, clean close) before the shutdown window opens
     pub kind: u8,
     pub size: u32,
     pub count: u8,
@@ -42,7 +43,7 @@ fn strategy(tier: Tier) -> BoxedStrategy<ShutCase> {
     let maxsize = tier.pick(300_000u32, 1_048_576u32);
     let script = (
         0u8..3,
-        prop_oneof![1 => Just(0u8), 2 => Just(1u8), 3 => Just(2u8), 3 => Just(3u8), 2 => Just(4u8)],
+        prop_oneof![1 => Just(0u8), 2 => Just(1u8), 3 => Just(2u8), 3 => Just(3u8), 3 => Just(4u8), 3 => Just(5u8)],
         prop_oneof![2 => 1u32..200, 2 => 8000u32..70000, 2 => 100_000u32..maxsize],
         2u8..12,
         1u16..u16::MAX,
@@ -127,7 +128,7 @@ fn client_thread(ci: usize, s: ClientScript, addr: String, go: Arc<Barrier>) -> 
             }
         }
     }
-    if s.kind % 5 == 4 {
+    if s.kind % 6 == 4 {
         // the large value the slow reader will fetch (acknowledged before the window)
         let v = value(ci, idx, s.size as usize);
         idx += 1;
@@ -142,8 +143,15 @@ fn client_thread(ci: usize, s: ClientScript, addr: String, go: Arc<Barrier>) -> 
             }
         }
     }
+    if s.kind % 6 == 5 {
+        // finished before the window: everything it sent was acknowledged; close cleanly
+        cl.close();
+        rep.ended = true;
+        go.wait();
+        return rep;
+    }
     go.wait();
-    match s.kind % 5 {
+    match s.kind % 6 {
         0 => {}
         1 => {
             let v = value(ci, idx, (s.size as usize).min(70000));
@@ -232,7 +240,7 @@ fn exec(c: &ShutCase, env: &Env) -> Outcome {
 
     let mut mid = false;
     for (ci, r) in reports.iter().enumerate() {
-        out.label(format!("client-kind-{}", c.clients[ci].kind % 5));
+        out.label(format!("client-kind-{}", c.clients[ci].kind % 6));
         if r.mid {
             mid = true;
         }
@@ -263,7 +271,7 @@ fn exec(c: &ShutCase, env: &Env) -> Outcome {
             if !r.ended {
                 verdict = Some((
                     "connection-not-closed".into(),
-                    format!("client {} (kind {}): the server did not end the stream within 12 s after the shutdown signal", ci, c.clients[ci].kind % 5),
+                    format!("client {} (kind {}): the server did not end the stream within 12 s after the shutdown signal", ci, c.clients[ci].kind % 6),
                     true,
                 ));
                 break;
@@ -275,7 +283,7 @@ fn exec(c: &ShutCase, env: &Env) -> Outcome {
                     format!(
                         "client {} (kind {}): after {} complete replies the stream ended cleanly with {} bytes of an incomplete reply",
                         ci,
-                        c.clients[ci].kind % 5,
+                        c.clients[ci].kind % 6,
                         r.replies.len(),
                         r.trailing
                     ),
@@ -358,7 +366,7 @@ fn exec(c: &ShutCase, env: &Env) -> Outcome {
                     format!(
                         "client {} (kind {}): {} commands sent, {} acknowledged; after shutdown the store holds {:?} (lengths) for its keys, which is not the state after any prefix of at least the acknowledged commands",
                         ci,
-                        c.clients[ci].kind % 5,
+                        c.clients[ci].kind % 6,
                         r.sent.len(),
                         acked,
                         store.iter().map(|s| s.as_ref().map(|v| v.len())).collect::<Vec<_>>()
@@ -405,7 +413,7 @@ pub fn prop() -> Prop<ShutCase> {
     Prop {
         id: "C16",
         level: "exploration",
-        rule: "Cases: 1-6 clients against an in-process server, each scripted into a state at the moment shutdown fires: idle after 0-2 acknowledged SETs; part of a frame sent (generated fraction); one complete SET with a value up to 300 KiB (1 MiB thorough) sent and the reply not yet read; 2-11 pipelined SETs; pipelined GETs of a large value read slowly. The shutdown signal fires a generated 0-8 ms after the clients start those sends. Every client then reads to the end of its stream and closes. Oracles: Server::run returns within 10 s after the last client closed; the server ends every stream within 12 s; each client's bytes parse with a strict reader into complete, correct replies in order followed by end of stream (a partial reply before a clean EOF is a torn reply; after a connection reset trailing bytes are not judged); after run returned, for each client the store equals the state after its first j complete commands for some j >= the number of replies it received. Non-trivial: shutdown fired while at least one client was mid-frame or mid-command; distinct = distinct hash of the case.",
+        rule: "Cases: 1-6 clients against an in-process server, each scripted into a state at the moment shutdown fires: idle after 0-2 acknowledged SETs; part of a frame sent (generated fraction); one complete SET with a value up to 300 KiB (1 MiB thorough) sent and the reply not yet read; 2-11 pipelined SETs; pipelined GETs of a large value read slowly; or already finished (acknowledged round trips and a clean close before the window). The shutdown signal fires a generated 0-8 ms after the clients start those sends. Every client then reads to the end of its stream and closes. Oracles: Server::run returns within 10 s after the last client closed; the server ends every stream within 12 s; each client's bytes parse with a strict reader into complete, correct replies in order followed by end of stream (a partial reply before a clean EOF is a torn reply; after a connection reset trailing bytes are not judged); after run returned, for each client the store equals the state after its first j complete commands for some j >= the number of replies it received. Non-trivial: shutdown fired while at least one client was mid-frame or mid-command; distinct = distinct hash of the case.",
         assumptions: &[
             "a client that never reads and never closes is not generated: run() is required to return once connections have wound down",
             "end of stream is accepted as EOF or connection reset (a server closing a socket with unread pipelined requests sends RST, which may purge data the client had not read yet)",
